@@ -431,6 +431,9 @@ class SchemasGroup(SVal):
         return SSeq(RT, toc.PP(self.r))
 
     def meth_provider(self, cx, ref):
+        if getattr(self, "lookups_may_fail", False) and cx.choose(2) == 1:
+            # a schema registered without an entry point (notebook style) has no provider: the lookup raises
+            cx.py_raise("AttributeError", "no provider")
         return SRef("PkgInfo", ENV_INFO(ref.t))
 
     def py_getattr(self, cx, name):
@@ -522,7 +525,7 @@ class SchemaRegister(FnSpec):
         self.bindings["map"] = bind_map
         self.bindings["list"] = bind_list
         self.bindings["json"] = JsonStub()
-        self.inline |= {"TOCSchemas._jsonschema_path_for", "TOCSchemas._schema_path_for"}
+        self.inline |= {"TOCSchemas._jsonschema_path_for", "TOCSchemas._schema_path_for", "TOCPackages._pkginfo_path_for"}
 
         def inv(cx, env, it):
             a = cx.ghost["sr"]
@@ -544,6 +547,7 @@ class SchemaRegister(FnSpec):
         o = schemas_obj(cx)
         r = SRef("SchemaRef", z3.Const("schema_ref", Ref))
         self.bindings["schemas"] = SchemasGroup(r.t)
+        self.bindings["schemas"].lookups_may_fail = True
         a = A(self=o, schema_ref=r)
         pk = o.fields["_pkgs"]
         a.S0, a.U0, a.P0, a.I0 = o.fields["_schemas"].snapshot(), o.fields["_used"].snapshot(), pk.fields["_providers"].snapshot(), pk.fields["_pkginfos"].snapshot()
@@ -564,6 +568,21 @@ class SchemaRegister(FnSpec):
         o = a.self
         S = o.fields["_schemas"]
         return [(n, g) for n, g in toc.index_inv(lambda x: S.has(x), o.fields["_parents"], o.fields["_children"], "pre", toc.W0)] + kinv(o, "k0", True)
+
+    raises_exact = False  # when the plugin system's lookups fail is theirs to say
+
+    def raises(self, cx, a):
+        return {"AttributeError": z3.BoolVal(True)}
+
+    def on_raise(self, cx, a, exc):
+        # a failing lookup (no provider for the schema, package name that cannot be stored) must leave NOTHING half-registered: a schema record
+        # without a package record makes every later open of the container fail
+        o = a.self
+        pk = o.fields["_pkgs"]
+        return [
+            ("refused-before-anything-is-written", z3.BoolVal(not [e for e in cx.fx if e[0] == "raw-set"]), "a registration that fails writes nothing into the container"),
+            ("refused-without-touching-the-index", z3.And(o.fields["_schemas"].same(cx, a.S0), o.fields["_used"].same(cx, a.U0), pk.fields["_providers"].same(cx, a.P0), pk.fields["_pkginfos"].same(cx, a.I0)), "a registration that fails leaves the in-memory index as it was"),
+        ]
 
     def ensures(self, cx, a, res):
         o = a.self
